@@ -661,19 +661,44 @@ def gen_smiles(tp):
             "motions": [_motion(tp)], "mirror": tp.chance(90)}
 
 
+def gen_sqpyr(tp):
+    """five-coordinate centre between trigonal bipyramid and square pyramid:
+    two trans pairs with clearly different angles (both may exceed 150
+    degrees), one apical ligand"""
+    zc = tp.pick([15, 33, 51, 26])
+    ligs = tp.shuffle(LIGANDS)[:5]
+    a1 = 166 + tp.below(13)            # larger trans angle
+    a2 = a1 - 12 - tp.below(40)        # smaller one, >= 12 degrees behind
+    t1, t2 = math.radians(a1 / 2), math.radians(a2 / 2)
+    dirs = [(0, 0, 1),
+            (math.sin(t1), 0, -math.cos(t1)), (-math.sin(t1), 0, -math.cos(t1)),
+            (0, math.sin(t2), -math.cos(t2)), (0, -math.sin(t2), -math.cos(t2))]
+    atoms = [(zc, (0.0, 0.0, 0.0))]
+    for z, v in zip(ligs, dirs):
+        ln = (G.RADII[zc] + G.RADII[z]) * (0.95 + tp.below(11) / 100.0)
+        atoms.append((z, G.scale(G.unit(v), ln)))
+    order = tp.shuffle(range(6))
+    return {"kind": "raw", "elements": [atoms[i][0] for i in order],
+            "coords": [list(atoms[i][1]) for i in order],
+            "perm": tp.shuffle(range(6)), "motions": [_motion(tp)],
+            "mirror": tp.chance(90), "shape": "square-pyramid-like"}
+
+
 def gen(data: bytes):
     tp = S.Tape(data)
-    k = tp.weighted([3, 2, 6])
+    k = tp.weighted([3, 2, 6, 1])
     if k == 0:
         return gen_file(tp)
     if k == 1:
         return gen_smiles(tp)
+    if k == 3:
+        return gen_sqpyr(tp)
     return gen_template(tp)
 
 
 def shrink(case):
     n = len(case.get("perm", []))
-    if case["kind"] in ("template", "file", "triple", "smiles"):
+    if case["kind"] in ("template", "file", "triple", "smiles", "raw"):
         ident = list(range(n))
         if case["perm"] != ident:
             yield {**case, "perm": ident}
